@@ -6,7 +6,7 @@ import random
 from harness import coreenc, coregen, coreprops, sim
 
 PROFILES = {
-    "C01": {"ops": {"die": 0.14, "xkill": 0.06, "check": 0.2, "wake": 0.3},
+    "C01": {"recipes": {"singleton_set": 0.04}, "ops": {"die": 0.14, "xkill": 0.06, "check": 0.2, "wake": 0.3},
             "req": {"incr": 0.3, "set": 0.12, "ssr": 0.15, "reload": 0.15, "kill": 0.05, "signal": 0.02, "rm": 0.01, "add": 0.02, "quit": 0.0, "ro": 0.05}},
     "C02": {"stubborn": 0.2, "on_demand": 0.3, "recipes": {"on_demand_stop": 0.12}, "ops": {"die": 0.1, "fault": 0.08, "check": 0.15, "sockev": 0.05},
             "req": {"ssr": 0.4, "reload": 0.05, "incr": 0.1, "set": 0.12, "kill": 0.07, "signal": 0.03, "rm": 0.08, "add": 0.03, "quit": 0.02, "ro": 0.03}},
@@ -21,11 +21,11 @@ PROFILES = {
     "C09": {"recipes": {"untracked_zombies": 0.06}, "ops": {"die": 0.15, "xkill": 0.08, "check": 0.18},
             "req": {"incr": 0.25, "set": 0.1, "reload": 0.15, "ssr": 0.2, "kill": 0.08, "signal": 0.02, "rm": 0.02, "add": 0.02, "quit": 0.0, "ro": 0.05}},
     "C10": {"hooks": True, "exec_fail": 0.15, "ops": {"wake": 0.25, "check": 0.1}, "req": {}},
-    "C11": {"ops": {"wake": 0.25}, "req": {"set": 0.2, "add": 0.12, "kill": 0.12, "signal": 0.12}},
-    "C14": {"hooks": True, "stubborn": 0.2, "ops": {"wake": 0.45},
+    "C11": {"recipes": {"singleton_set": 0.04}, "ops": {"wake": 0.25}, "req": {"set": 0.2, "add": 0.12, "kill": 0.12, "signal": 0.12}},
+    "C14": {"recipes": {"signal_veto": 0.05}, "hooks": True, "stubborn": 0.2, "ops": {"wake": 0.45},
             "req": {"ssr": 0.45, "reload": 0.08, "incr": 0.08, "set": 0.02, "kill": 0.12, "signal": 0.12, "rm": 0.02, "add": 0.02, "quit": 0.0, "ro": 0.02}},
     "C15": {"ops": {"wake": 0.3}, "req": {"add": 0.22, "rm": 0.15, "ssr": 0.25, "ro": 0.25, "incr": 0.03, "set": 0.02, "kill": 0.02, "signal": 0.02, "reload": 0.02, "quit": 0.0}},
-    "C18": {"ops": {"wake": 0.3}, "req": {"signal": 0.4, "kill": 0.3, "ssr": 0.1, "incr": 0.03, "set": 0.02, "rm": 0.02, "add": 0.03, "reload": 0.02, "quit": 0.0, "ro": 0.03}},
+    "C18": {"recipes": {"signal_veto": 0.03}, "ops": {"wake": 0.3}, "req": {"signal": 0.4, "kill": 0.3, "ssr": 0.1, "incr": 0.03, "set": 0.02, "rm": 0.02, "add": 0.03, "reload": 0.02, "quit": 0.0, "ro": 0.03}},
     "C19": {"start_first": 1.0, "recipes": {"topup_start": 0.15}, "ops": {"wake": 0.75, "adv": 0.08, "die": 0.08, "check": 0.0, "xkill": 0.02, "fault": 0.03, "raw": 0.0, "sig": 0.0},
             "req": {"ro": 0.9, "ssr": 0.1, "reload": 0, "incr": 0, "set": 0, "kill": 0, "signal": 0, "rm": 0, "add": 0, "quit": 0}},
 }
@@ -44,7 +44,7 @@ ASSUMPTIONS = [
 ]
 
 
-def make(prop_id, lean_props, lean_lemmas=(), n_quick=350, n_thorough=6000, extra_corpus=()):
+def make(prop_id, lean_props, lean_lemmas=(), n_quick=900, n_thorough=6000, extra_corpus=()):
     class Mod(object):
         pass
     m = Mod()
